@@ -147,7 +147,8 @@ func (c *Config) enabled(m *omap.Model) []seqx.Op {
 // rec collects oracle failures of one execution: observation name -> implementations that disagree.
 type rec struct {
 	after string
-	write bool // the last op is a member of the Set family
+	write bool   // the last op is a member of the Set family
+	class string // suffix of the violation key that names the class of the history (":rewrite-after-undo" or empty)
 	m     map[string]*mismatch
 }
 
@@ -201,7 +202,7 @@ func (r *rec) viols() (out []seqx.Viol, diverged bool) {
 			if r.write && n != "answer" && n != "panic" && !strings.HasPrefix(n, "stale-iterator") {
 				after = "write" // which member of the Set family came last does not characterise the failure
 			}
-			return []seqx.Viol{{Key: fmt.Sprintf("%s:%s:after-%s", n, w, after),
+			return []seqx.Viol{{Key: fmt.Sprintf("%s:%s:after-%s%s", n, w, after, r.class),
 				What: fmt.Sprintf("%s disagrees with the reference model on %s after %s: %s", w, n, r.after, mm.msg)}}, true
 		}
 	}
@@ -250,15 +251,30 @@ func (c *Config) replayModel(h []seqx.Op) *omap.Model {
 // exec replays h on fresh ART and RBT buffers and the model, compares the
 // answers of every op, and after the last op the whole observation set.
 func (c *Config) exec(h []seqx.Op) seqx.Result {
+	res, _ := c.execX(h)
+	return res
+}
+
+// execInfo is what execX knows about a history beyond the search result.
+type execInfo struct {
+	// RewriteAfterUndo: the last op wrote a key that an earlier Cleanup / RevertToCheckpoint had removed
+	// (or stripped of flags) and that had not been written since.
+	RewriteAfterUndo bool
+	Undone           bool // the last op is an undo that removed a key or stripped flags
+}
+
+func (c *Config) execX(h []seqx.Op) (seqx.Result, execInfo) {
 	ops := toOps(h)
 	m := c.newModel()
 	impls := c.newImpls()
 	r := &rec{after: "init"}
 	res := seqx.Result{}
+	info := execInfo{}
+	gh := ghosts{}
 	ctx := context.Background()
 	for i, o := range ops {
 		last := i == len(ops)-1
-		r.after, r.write = o.Kind, o.IsWrite()
+		r.after, r.write, r.class = o.Kind, o.IsWrite(), ""
 		depth := m.Depth()
 		logBefore := len(m.Log)
 		// captured before the last op: iterators (must fail loudly after a write) and snapshot getters (must stay stable)
@@ -282,7 +298,15 @@ func (c *Config) exec(h []seqx.Op) seqx.Result {
 				})
 			}
 		}
+		before := gh.before(m, o)
 		want := membuf.ApplyModel(m, o, c.Keys)
+		rewrite, undone := gh.after(m, o, before, want, c.Keys)
+		if rewrite {
+			r.class = ":rewrite-after-undo"
+		}
+		if last {
+			info.RewriteAfterUndo, info.Undone = rewrite, undone
+		}
 		for _, im := range impls {
 			got := membuf.ApplyReal(im, o, c.Keys, depth, len(m.Cps))
 			res.RealOps++
@@ -349,13 +373,92 @@ func (c *Config) exec(h []seqx.Op) seqx.Result {
 		}
 	}
 	// Deduplication key = canonical reference-model state (omap.Canon explains why equal keys have equal
-	// futures for this observation set). Histories that reach a known state are still executed and fully
-	// observed on the real buffers; only their extensions are not explored again.
-	res.State = seqx.Digest(m.Canon())
+	// futures for this observation set) + the ghosts (see type ghosts: what an undo removed and nobody has
+	// rewritten yet; the model forgets it, an implementation may not). Histories that reach a known state
+	// are still executed and fully observed on the real buffers; only their extensions are not explored again.
+	res.State = seqx.Digest(m.Canon() + gh.canon())
 	res.Outcome = seqx.Digest(out.String())
 	res.NonTrivial = nonTrivial(m)
 	res.Viols, res.Prune = r.viols()
-	return res
+	return res, info
+}
+
+// ghosts: per key, what the last undo (Cleanup of a staging level / RevertToCheckpoint) took away from it
+// while no write has touched the key since: the key vanished from the model, or lost flags. The reference
+// model has no memory of it (a later write starts from "no flags"), but both trees keep the node of an
+// undone key (marked deleted) and re-use it for the next write. Two histories that end in the same model
+// state but differ in their ghosts are therefore NOT merged: the re-write of an undone key is explored for
+// every distinct set of flags that the undo discarded.
+type ghosts map[string]ghost
+
+type ghost struct {
+	dropped omap.Flags // flags the key had before the undo and does not have after it
+	gone    bool       // the key left the model (otherwise it stays as a flags-only key / older version)
+}
+
+type ghostSnap map[string]omap.Flags
+
+func isUndo(o membuf.Op) bool {
+	switch o.Kind {
+	case "Cleanup", "Revert", "Cleanup0", "CleanupStale":
+		return true
+	}
+	return false
+}
+
+func (g ghosts) before(m *omap.Model, o membuf.Op) ghostSnap {
+	if !isUndo(o) {
+		return nil
+	}
+	s := make(ghostSnap, len(m.M))
+	for k, e := range m.M {
+		s[k] = e.Flags
+	}
+	return s
+}
+
+// after updates the ghosts for op o (already applied to m); rewrite = o wrote a key that had a ghost,
+// undone = o left a new ghost.
+func (g ghosts) after(m *omap.Model, o membuf.Op, before ghostSnap, answer string, keys [][]byte) (rewrite, undone bool) {
+	if o.IsWrite() {
+		k := string(keys[o.K])
+		if _, known := m.M[k]; known && (answer == "ok" || answer == omap.ErrTxnTooLarge.String()) {
+			if _, ok := g[k]; ok {
+				delete(g, k)
+				return true, false
+			}
+		}
+		return false, false
+	}
+	for k, fb := range before {
+		e := m.M[k]
+		switch {
+		case e == nil:
+			g[k] = ghost{dropped: fb, gone: true}
+			undone = true
+		case e.Flags != fb:
+			g[k] = ghost{dropped: fb &^ e.Flags}
+			undone = true
+		}
+	}
+	return false, undone
+}
+
+func (g ghosts) canon() string {
+	if len(g) == 0 {
+		return ""
+	}
+	ks := make([]string, 0, len(g))
+	for k := range g {
+		ks = append(ks, k)
+	}
+	sort.Strings(ks)
+	var b strings.Builder
+	b.WriteString("|G")
+	for _, k := range ks {
+		fmt.Fprintf(&b, " %q:%x:%v", k, uint32(g[k].dropped), g[k].gone)
+	}
+	return b.String()
 }
 
 // nonTrivial: some key has at least two versions, or a flags-only key exists,
